@@ -1,4 +1,5 @@
 import numpy as np
+from copy import deepcopy
 from device_kit import Device
 from device_kit.functions import ABCCost
 
@@ -46,7 +47,7 @@ class IDevice(Device):
     IDevice._validate_param(b, len(self))
     if not (np.array(b) > 0).all():
       raise ValueError('param b must be > 0')
-    self._b = b
+    self._b = deepcopy(b)
 
   @c.setter
   def c(self, c):
@@ -59,4 +60,4 @@ class IDevice(Device):
         raise ValueError('param must be scalar or same length as device (%d)' % (length,))
     if not (v >= 0).all():
       raise ValueError('param must be >= 0')
-    return p
+    return deepcopy(p)
